@@ -22,6 +22,8 @@ from ..vloop import new_loop
 RUN = "vf.checks.c15:run_one"
 TEXTS = ["plain", "\u00e9\u20ac\U0001F600", "line\nbreak\u2028\u0085\ttab", "nul\x00q\"b\\s"]
 HELPERS = ["initialize", "tools/list", "tools/call", "resources/read", "prompts/get", "ping"]
+# requests written to the write stream directly with a caller-chosen id (the helpers only ever use uuid strings)
+RAW_IDS = {"raw-id-0": 0, "raw-id-7": 7, "raw-id-neg": -1, "raw-id-digits": "7", "raw-id-empty": "", "raw-id-big": 2**53 + 1}
 ERRORS = [-32601, -32000, -32602]
 CARRIERS = ["stdio", "http-json", "http-sse", "legacy-sse", "legacy-sse-event-first"]
 
@@ -37,6 +39,8 @@ def result_for(helper: str, text: str) -> Dict[str, Any]:
         return {"content": [{"type": "text", "text": text}], "isError": False, "_meta": {"k": None}}
     if helper == "resources/read":
         return {"contents": [{"uri": "file:///x", "text": text, "mimeType": "text/plain"}]}
+    if helper in RAW_IDS:
+        return {"tools": [], "echo": text}
     if helper == "prompts/get":
         return {"description": text, "messages": [{"role": "user", "content": {"type": "text", "text": text}}]}
     return {}
@@ -98,7 +102,25 @@ async def drive(read, write, steps, log, q):
     for step in steps:
         h = step["helper"]
         try:
-            if h == "initialize":
+            if h in RAW_IDS:
+                from chuk_mcp.protocol.messages.json_rpc_message import create_request
+                import anyio as _anyio
+
+                rid = RAW_IDS[h]
+                await write.send(create_request("tools/list", {"raw": True}, id=rid))
+                got_own = None
+                with _anyio.move_on_after(2.0):
+                    while True:
+                        m = await r.receive()
+                        if getattr(m, "method", None) is None and type(getattr(m, "id", None)) is type(rid) \
+                                and getattr(m, "id", None) == rid:
+                            got_own = m
+                            break
+                v = None if got_own is None else got_own.model_dump(exclude_none=True)
+                if v is None:
+                    raise TimeoutError("no answer with the request's id (value and type) within 2 s")
+                v = {k: v[k] for k in ("result", "error") if k in v}
+            elif h == "initialize":
                 v = await send_initialize(r, write, timeout=2.0)
             elif h == "tools/list":
                 v = await send_tools_list(r, write, timeout=2.0)
@@ -193,6 +215,8 @@ def run_carrier(carrier: str, steps: List[dict]) -> Dict[str, Any]:
     # normalise: ids of the conversation's requests -> their index
     req_ids = [r.get("id") for r in script.seen if isinstance(r, dict) and "id" in r and "method" in r]
 
+    answered: Dict[str, int] = {}
+
     def norm(m):
         d = dump_msg(m)
         if not isinstance(d, dict):
@@ -201,11 +225,20 @@ def run_carrier(carrier: str, steps: List[dict]) -> Dict[str, Any]:
         kind = classify(d)[0]
         out = {"kind": kind}
         if "id" in d:
-            out["id"] = ["req", req_ids.index(d["id"])] if d["id"] in req_ids and \
-                type(req_ids[req_ids.index(d["id"])]) is type(d["id"]) else ["other", repr(d["id"])]
-        for k in ("method", "params", "result", "error"):
-            if k in d:
-                out[k] = d[k]
+            # the k-th response bearing id X belongs to the k-th request that used id X (value and JSON type)
+            idx = [i for i, r in enumerate(req_ids) if type(r) is type(d["id"]) and r == d["id"]]
+            key = repr(d["id"])
+            k = answered.get(key, 0)
+            if idx and "method" not in d:
+                answered[key] = k + 1
+                out["id"] = ["req", idx[min(k, len(idx) - 1)]]
+            elif idx:
+                out["id"] = ["req", idx[0]]
+            else:
+                out["id"] = ["other", repr(d["id"])]
+        for k2 in ("method", "params", "result", "error"):
+            if k2 in d:
+                out[k2] = d[k2]
         return out
 
     return {"status": status, "error": repr(val)[:200] if status != "ok" else None,
@@ -272,6 +305,10 @@ def run_one(ctl: explorer.Ctl, cfg: Dict[str, Any]) -> Dict[str, Any]:
 
 def steps_full() -> List[Dict[str, Any]]:
     out = []
+    for h in list(RAW_IDS):
+        for notes in (0, 1):
+            out.append({"helper": h, "notes": notes, "answer": "result", "text": 1})
+            out.append({"helper": h, "notes": notes, "answer": "error", "code": -32000, "text": 1})
     for h in HELPERS:
         for notes in (0, 1, 3):
             for t in range(len(TEXTS)):
@@ -282,7 +319,8 @@ def steps_full() -> List[Dict[str, Any]]:
 
 
 def steps_reduced() -> List[Dict[str, Any]]:
-    out = []
+    out = [{"helper": "raw-id-0", "notes": 0, "answer": "result", "text": 1},
+           {"helper": "raw-id-digits", "notes": 2, "answer": "error", "code": -32000, "text": 1}]
     for h in HELPERS:
         for notes in (0, 2):
             out.append({"helper": h, "notes": notes, "answer": "result", "text": 2})
